@@ -172,4 +172,11 @@ theorem query_is_function_of_state (s1 s2 : State) (q : Query)
   obtain ⟨h1, h2, h3, h4, h5, h6, h7, h8, h9, h10⟩ := h
   cases q <;> simp only [query, ownerBindings, reqView, h1, h2, h3, h4, h5, h6, h7, h8, h9, h10]
 
+/-- the schema query answers from the module's two constants alone: the pricing schema for the name `pricing`, the
+    result schema for `result` (in any letter case), a refusal for every other name — in every state, reachable or not -/
+theorem schema_exact (s : State) (name : String) :
+    query s (.schema name) =
+      (if name.toLower = "pricing" then .ok (.schema .pricing)
+       else if name.toLower = "result" then .ok (.schema .result) else .error .invalidSchemaName) := rfl
+
 end SM.C17
